@@ -392,6 +392,14 @@ def relation_templates(q):
         fp = dict(P=(('dx', 50), 40 + dy), Q=(('dx', 50), 60 + dy), a=(('dx', 30), 50 + dy), b=(('dx', 40), 50 + dy), c=(('dx', 65), 50 + dy), d=(('dx', 100), 50 + dy))
         T.append(dict(name='four-paths(dy=%d)' % dy, pts=fp, cycles=[['P', 'a', 'Q', 'b', 'P'], ['P', 'c', 'Q', 'd', 'P']], ways=[['P', 'a', 'Q'], ['Q', 'b', 'P'], ['P', 'c', 'Q'], ['P', 'd', 'Q']], free=['a', 'c'], counts=False,
                       syms=dict(dx=(-56, -44)) if not q else dict(dx=(-52, -48))))
+    # nesting of depth 5 (forest, lake, island, pond, islet) plus a clearing in the forest whose leftmost node moves over positions left of, above and
+    # right of the inner rings: the rings crossed below it are [R1 R2 R2 R1 R3]-like sequences in which pairs have to cancel
+    def rect(pfx, x0, y0, x1, y1): return {pfx + '0': (x0, y0), pfx + '1': (x1, y0), pfx + '2': (x1, y1), pfx + '3': (x0, y1)}
+    def cyc(pfx): return [pfx + '0', pfx + '1', pfx + '2', pfx + '3', pfx + '0']
+    deep = dict(rect('a', 0, 0, 100, 100), **rect('b', 10, 10, 90, 50), **rect('c', 20, 15, 80, 45), **rect('d', 30, 20, 70, 40), **rect('e', 40, 25, 60, 35))
+    deep.update(p0=(('hx', 0), 60), p1=(('hx', 5), 60), p2=(('hx', 5), 70), p3=(('hx', 0), 70))
+    T.append(dict(name='deep-nesting', pts=deep, cycles=[cyc('a'), cyc('b'), cyc('c'), cyc('d'), cyc('e'), cyc('p')], ways=[cyc('p'), cyc('e'), cyc('c'), cyc('a'), cyc('d'), cyc('b')],
+                  syms=dict(hx=(3, 92)) if not q else dict(hx=(45, 58))))
     return T
 
 
@@ -429,8 +437,8 @@ def harnesses(tier):
         Harness('assemble_relation', 'assemble', h_assemble_relation, mode='INT', opaque_fp=True, jobs=relation_templates(q), reach=('end', 'assembled', 'rejected'), wall=1500,
                 tests=[dict(_job=0, dx=3, dy=2), dict(_job=0, dx=-3, dy=2), dict(_job=0, dx=7, dy=2), dict(_job=2, hx=10, hy=50), dict(_job=3, dx=5, dy=5), dict(_job=4, dx=2), dict(_job=4, dx=10), dict(_job=6, dx=7, dy=8), dict(_job=7, dx=-50)],
                 desc='the real area::Assembler on multipolygon relations built from templates (a ring cut into open ways, reversed ways, member order; a triangle moved over a grid through inside / touching / crossing / outside positions; '
-                     'two inner rings touching a concave outer ring in two split locations with the far vertices of one moving; island in hole in square; two separate squares; an outer corner moving; member ways that do not close; two rings touching in two nodes = four paths between two split locations, moved around the coordinate origin): '
+                     'two inner rings touching a concave outer ring in two split locations with the far vertices of one moving; island in hole in square; two separate squares; an outer corner moving; member ways that do not close; two rings touching in two nodes = four paths between two split locations, moved around the coordinate origin; five-fold nesting with a further inner ring above the innermost rings): '
                      'whenever the cycles form a valid arrangement (exact reference: segments meet only in shared nodes) an area is produced whose rings are closed, simple, outer counter-clockwise / inner clockwise, every inner ring inside the outer ring it is attached to, '
                      'ring counts equal to the even-odd nesting depth count and outer-minus-inner area equal to the even-odd fill; arrangements with properly crossing segments and open rings give no rings and a report',
-                bounds='8 templates with 1-2 symbolic translation / vertex variables over the stated grids (<= 17 x 13 positions); <= 14 segments; floating point as exact rationals (find_enclosing_ring) / inside the proved range (intersection point); tags, roles and the old-style tag logic are not varied'),
+                bounds='9 templates with 1-2 symbolic translation / vertex variables over the stated grids (<= 17 x 13 positions); <= 24 segments; floating point as exact rationals (find_enclosing_ring) / inside the proved range (intersection point); tags, roles and the old-style tag logic are not varied'),
     ]
